@@ -349,6 +349,8 @@ def kore_definition(variant: int = 0):
         rule(f(x), K.App('inj', (S, S), (x,))),
         # a quantifier inside a rule: Z first occurs inside it, X only after it
         rule(g(K.Exists(S, y, g(y, z)), x), g(z, x)),
+        # the bound variable's sort differs from the sort of the quantified pattern
+        rule(f(K.Exists(S, K.EVar('VarV', K.SortApp('SortOther')), g(K.EVar('VarV', K.SortApp('SortOther')), z))), f(z)),
         # two sort variables in one axiom (and element variables of those sorts)
         K.SymbolDecl(K.Symbol('pairc', (K.SortVar('S1'), K.SortVar('S2'))), (K.SortVar('S1'), K.SortVar('S2')), C, (K.App('functional'),)),
         K.Axiom((K.SortVar('S1'), K.SortVar('S2')),
@@ -418,6 +420,34 @@ def conversion_check_one(variant, defn, e, sem):
             if conv[i] is not None and conv[i] == conv[j]:
                 out['viol'].append(({'kind': 'distinct_terms_merged'}, f'the distinct Kore terms {wide[i]!r} and {wide[j]!r} convert to the same pattern'))
     axioms = [s for s in defn.modules[0].sentences if isinstance(s, K.Axiom)]
+    # a quantifier whose bound variable has another sort than the quantified pattern: the bound variable is constrained to ITS
+    # sort inside the binder, the whole pattern to the outer sort outside it (kore_exists(inner_sort, outer_sort, pattern))
+    def syms(t, acc):
+        if t[0] == 'sym':
+            acc.add(t[1])
+        for x in t[1:]:
+            if isinstance(x, tuple) and x and isinstance(x[0], str):
+                syms(x, acc)
+        return acc
+
+    def ex_bodies(t, acc):
+        if t[0] == 'ex':
+            acc.append(t[2])
+        for x in t[1:]:
+            if isinstance(x, tuple) and x and isinstance(x[0], str):
+                ex_bodies(x, acc)
+        return acc
+    for i, ax in enumerate(axioms):
+        if isinstance(ax.pattern, K.Rewrites) and 'VarV' in repr(ax):
+            out['evals'] += 1
+            t = bridge.expand(sem.get_axiom(i).pattern)
+            inside = set()
+            for bdy in ex_bodies(t, []):
+                syms(bdy, inside)
+            if 'ksort_SortOther' not in inside or 'ksort_SortS' in inside:
+                out['viol'].append(({'kind': 'exists_sorts', 'ordinal': i},
+                                    f'axiom {i}: \\exists{{SortS}}(V:SortOther, ...) converts to a binder body mentioning the sorts {sorted(x for x in inside if x.startswith("ksort_"))} '
+                                    f'(expected the bound variable in SortOther inside, SortS outside)'))
     ordinals = {}
     for i, ax in enumerate(axioms):
         if isinstance(ax.pattern, K.Rewrites):
